@@ -135,7 +135,11 @@ var pureMethodSuffixes = []string{".FileInfo", ".Mode", ".IsRegular", ".IsDir", 
 
 func isPure(n string) bool {
 	for _, p := range pureCallPrefixes {
-		if strings.HasPrefix(n, p) || n == strings.TrimSuffix(p, ".") {
+		if strings.HasSuffix(p, ".") || strings.HasSuffix(p, "[") || strings.HasSuffix(p, "]") {
+			if strings.HasPrefix(n, p) || n == strings.TrimSuffix(p, ".") {
+				return true
+			}
+		} else if n == p {
 			return true
 		}
 	}
@@ -468,6 +472,24 @@ func (t *tr) facts(e ast.Expr) (pos, neg []fact) {
 			_, n2 := t.facts(v.Y)
 			return nil, append(n1, n2...)
 		case token.NEQ, token.EQL:
+			if sel, ok := v.Y.(*ast.SelectorExpr); ok {
+				if a, ok := atomOf(v.X); ok {
+					at := a + " == " + rawtxt(sel)
+					if v.Op == token.EQL {
+						return []fact{{at, true}}, []fact{{at, false}}
+					}
+					return []fact{{at, false}}, []fact{{at, true}}
+				}
+			}
+			if lit, ok := v.Y.(*ast.BasicLit); ok && lit.Kind == token.STRING {
+				if a, ok := atomOf(v.X); ok {
+					at := a + " == " + strings.ReplaceAll(lit.Value, "\"", "'")
+					if v.Op == token.EQL {
+						return []fact{{at, true}}, []fact{{at, false}}
+					}
+					return []fact{{at, false}}, []fact{{at, true}}
+				}
+			}
 			if id, ok := v.Y.(*ast.Ident); ok && id.Name == "nil" {
 				if a, ok := atomOf(v.X); ok && a != "err" {
 					at := a + " != nil"
@@ -1000,7 +1022,7 @@ func main() {
 			sort.Strings(fl)
 			flagsAll = append(flagsAll, fl...)
 			emit(t.fn, "SK")
-			emit(t.fn, t.block(fd.Body.List))
+			emit(t.fn, seq(ev("Enter "+q(t.fn)), "(Finally "+t.block(fd.Body.List)+" "+ev("Leave "+q(t.fn))+")"))
 			if rt != "" && ast.IsExported(fd.Name.Name) && ast.IsExported(rt) {
 				exported = append(exported, t.fn)
 			}
